@@ -109,6 +109,7 @@ type Interp struct {
 	cfgs    map[*ssa.Function]*fnCFG
 	Fixed   map[string]string
 	drawMode int
+	symSeeds map[int64]bool // seeds whose draws stay symbolic under a fixed draw pattern (verifrt.SymbolicSeed)
 }
 
 type WriteEvent struct {
@@ -176,6 +177,7 @@ func (in *Interp) ResetPath(c *smt.Ctx, s *smt.Solver, p *PathState) {
 	in.spec = nil
 	in.expApps = nil
 	in.drawMode = 0
+	in.symSeeds = nil
 }
 
 func (in *Interp) newObj(v Value, label string) *Obj {
